@@ -2347,9 +2347,24 @@ impl<'a> Model<'a> {
         self.prepare_cell_for_user_input(sheet, row, column)?;
         if value.is_empty() {
             // If the value is empty we just clear the cell.
+            // The quote prefix belongs to the text that is being deleted: an empty cell that kept it
+            // would be shown as "'" by the editor.
+            let style_index = self.get_cell_style_index(sheet, row, column)?;
+            let cleared_style = if self.workbook.styles.style_is_quote_prefix(style_index) {
+                Some(
+                    self.workbook
+                        .styles
+                        .get_style_without_quote_prefix(style_index)?,
+                )
+            } else {
+                None
+            };
             // Deleting the contents of a cell also removes its link.
             let ws = self.workbook.worksheet_mut(sheet)?;
-            ws.cell_clear_contents(row, column)?;
+            match cleared_style {
+                Some(style) => ws.cell_clear_contents_with_style(row, column, style)?,
+                None => ws.cell_clear_contents(row, column)?,
+            }
             ws.links.remove(&(row, column));
             return Ok(());
         }
